@@ -155,11 +155,14 @@ def analyze(s0, s1, designated):
                 sd = snap.sig_diff(sig0, snap.subtree(s1, near[0]))
                 o.update(state='ALTERED', payload=near[0],
                          diff=snap.fmt_diff(sd, 6),
-                         # (a link recreated by os.symlink: its times AND its
-                         # owner are those of the copy, one mechanism)
+                         # (what a copy across devices does not carry: the
+                         # times and the owner of a link recreated by
+                         # os.symlink, the owner of a copied file or directory
+                         # - copy2/copystat never chown.  One mechanism.)
                          only_symlink_mtime=all(
-                             x is not None and y is not None and x[0] == 'l'
-                             and x[:2] == y[:2] and x[4:6] == y[4:6]
+                             x is not None and y is not None and x[0] == y[0]
+                             and x[1] == y[1] and x[4:6] == y[4:6]
+                             and (x[0] == 'l' or x[6:] == y[6:])
                              for k, x, y in sd))
             else:
                 o.update(state='LOST')
